@@ -100,12 +100,14 @@ theorem C20_mul_sound (a b : UInt64) (h : _cbor_safe_to_multiply a b = true) :
   simp only []
   repeat' split
   all_goals (intro h; cnorm)
+  -- whether the guard is an early return or one disjunct of a single `||` chain: decide on the `Nat` side
+  all_goals (by_cases hs : a.toNat ≤ 1 ∨ b.toNat ≤ 1)
   all_goals first
-    | (exact mul_small _ _ (by omega) hal hbl)
+    | (exact mul_small _ _ hs hal hbl)
     | (apply mul_lt_of_bitlen
-       simp [UInt64.toNat_add, UInt64.toNat_shiftLeft, ha, hb] at h
-       omega)
-    | (simp at h; done)
+       first
+        | omega
+        | (simp [UInt64.toNat_add, UInt64.toNat_shiftLeft, ha, hb] at h <;> omega))
 
 theorem C20_mul_ok (a b : UInt64) : _cbor_safe_to_multiply.ok a b = true := by
   unfold _cbor_safe_to_multiply.ok
@@ -139,9 +141,11 @@ theorem C20_mul_complete_half (a b : UInt64) (h : a.toNat * b.toNat < 2 ^ 63) :
   all_goals cnorm
   all_goals first
     | rfl
-    | (have := core (by omega) (by omega)
-       simp [UInt64.toNat_add, UInt64.toNat_shiftLeft, ha, hb]
-       omega)
+    | omega
+    | (by_cases hs : 1 < a.toNat ∧ 1 < b.toNat
+       · have := core hs.1 hs.2
+         simp [UInt64.toNat_add, UInt64.toNat_shiftLeft, ha, hb] <;> omega
+       · simp [UInt64.toNat_add, UInt64.toNat_shiftLeft, ha, hb] <;> omega)
 
 /-- the addition guard is exact -/
 theorem C20_add_exact (a b : UInt64) :
@@ -151,9 +155,10 @@ theorem C20_add_exact (a b : UInt64) :
   have ha := a.toNat_lt
   have hb := b.toNat_lt
   simp only []
-  cnorm
-  simp only [UInt64.toNat_add]
-  omega
+  repeat' split
+  all_goals cnorm
+  all_goals (try simp only [UInt64.toNat_add, Bool.false_eq_true, eq_self, true_iff, false_iff] at *)
+  all_goals omega
 
 /-- the signalling sum is the exact mathematical sum, or 0 when an operand is 0 or the sum does not fit -/
 theorem C20_sadd (a b : UInt64) :
@@ -202,11 +207,19 @@ def isSizeof (s : String) : Bool :=
   "sizeof(".toList.isPrefixOf s.toList &&
     (")".toList.isSuffixOf s.toList || [" + 1", " + 2", " + 4", " + 8"].any fun t => t.toList.isSuffixOf s.toList)
 
-/-- an allocation call site is *guarded* when the byte count it passes is a compile-time constant, a length the
-caller already holds in a `size_t` (no arithmetic at the site), or — only inside the two `*_multiple` helpers,
-behind their `_cbor_safe_to_multiply` guard — the product `item_size * item_count`; and when the `*_multiple`
-helpers receive an element size that is a `sizeof` and a count that is a plain variable -/
-def okSite (site : String × String × List String) : Bool :=
+/-- an allocator argument read through the census of `const` locals: an argument that is just the name of a `const`-qualified
+local of that function — declared exactly once there (`Gen.Effects.constLocals` lists only such names), hence never assigned
+after its initialisation — stands for the expression it was initialised with.  So `const size_t total = item_size * item_count;
+_cbor_realloc(pointer, total)` is judged as `_cbor_realloc(pointer, item_size * item_count)`, and, conversely, an allocator
+call whose byte count is a `const` local initialised with an unguarded product is judged by that product, not waved through
+as "a plain variable". -/
+def resolveArg (f a : String) : String :=
+  match constLocals.filter (fun e => e.1 == f && e.2.1 == a) with
+  | [e] => e.2.2
+  | _ => a
+
+/-- the rule proper, on argument texts in which `const` locals have been replaced by their initialisers -/
+def okSiteResolved (site : String × String × List String) : Bool :=
   match site with
   | (f, "_cbor_malloc", [a]) => isSizeof a || isIdent a || (f == "_cbor_alloc_multiple" && a == "item_size * item_count")
   | (f, "_cbor_realloc", [p, a]) => f == "_cbor_realloc_multiple" && p == "pointer" && a == "item_size * item_count"
@@ -214,6 +227,14 @@ def okSite (site : String × String × List String) : Bool :=
   | (_, "_cbor_realloc_multiple", [_, sz, n]) => isSizeof sz && isIdent n
   | (_, "_cbor_free", _) => true
   | _ => false
+
+/-- an allocation call site is *guarded* when the byte count it passes (a `const` local being read as the expression that
+initialises it, see `resolveArg`) is a compile-time constant, a length the
+caller already holds in a `size_t` (no arithmetic at the site), or — only inside the two `*_multiple` helpers,
+behind their `_cbor_safe_to_multiply` guard — the product `item_size * item_count`; and when the `*_multiple`
+helpers receive an element size that is a `sizeof` and a count that is a plain variable -/
+def okSite (site : String × String × List String) : Bool :=
+  okSiteResolved (site.1, site.2.1, site.2.2.map (resolveArg site.1))
 
 /-- **No arithmetic at allocation sites.**  Every allocator call in the library (the census regenerated from
 the sources on this run) is guarded in the sense above: products are formed only inside the guarded helpers. -/
